@@ -20,8 +20,8 @@ def L(n): return {"k": "leaf", "n": n}
 @st.composite
 def pair(draw):
     t1 = draw(units.tree(max_leaves=3))
-    kind = draw(st.sampled_from(["cancel", "cancel", "cancel_dim", "cancel_dim", "random", "random", "same"]))
-    c = {"t1": t1, "kind": kind, "r1": draw(st.sampled_from(reps.ALL_REPS)), "r2": draw(st.sampled_from(reps.ALL_REPS)), "s": draw(st.sampled_from([(1000, 1), (1, 1000), (12, 1), (1, 100), (3, 7), (60, 1)]))}
+    kind = draw(st.sampled_from(["cancel", "cancel", "cancel_dim", "cancel_dim", "random", "random", "same", "powpair", "powpair"]))
+    c = {"t1": t1, "kind": kind, "pp": draw(st.sampled_from([((1, 2), (2, 1)), ((2, 1), (1, 2)), ((1, 3), (3, 1)), ((3, 1), (1, 3)), ((3, 2), (2, 3)), ((1, 2), (-2, 1)), ((1, 2), (1, 3)), ((2, 3), (3, 1))])), "r1": draw(st.sampled_from(reps.ALL_REPS)), "r2": draw(st.sampled_from(reps.ALL_REPS)), "s": draw(st.sampled_from([(1000, 1), (1, 1000), (12, 1), (1, 100), (3, 7), (60, 1)]))}
     if kind == "random":
         c["t2"] = draw(units.tree(max_leaves=3))
     return c
@@ -29,6 +29,9 @@ def pair(draw):
 
 def second_unit(c):
     t1 = c["t1"]
+    if c["kind"] == "powpair":
+        # U1 = B^a, U2 = B^b on the SAME base with a != +-b (root with an integer power, ...): product and quotient keep the exponents a+b and a-b, nothing cancels
+        return {"k": "pow", "a": copy.deepcopy(c["base"]), "n": c["pp"][1][0], "d": c["pp"][1][1]}
     if c["kind"] == "cancel":
         return {"k": "pow", "a": copy.deepcopy(t1), "n": -1, "d": 1}      # U1 * U2 is exactly unitless
     if c["kind"] == "cancel_dim":
@@ -39,9 +42,16 @@ def second_unit(c):
 
 
 def prod_line(c, idx, canary=False):
-    t1 = copy.deepcopy(c["t1"]); t2 = second_unit(c)
+    t1 = copy.deepcopy(c["t1"])
+    if c["kind"] == "powpair":
+        base = t1
+        units.fix_twins([base])
+        c = dict(c); c["base"] = base
+        t1 = {"k": "pow", "a": copy.deepcopy(base), "n": c["pp"][0][0], "d": c["pp"][0][1]}
+        c["t1"] = t1
+    t2 = second_unit(c)
     ntw = units.fix_twins([t1, t2]) if c["kind"] == "random" else units.fix_twins([t1]) * 0
-    if c["kind"] != "random":
+    if c["kind"] not in ("random", "powpair"):
         # keep t2 consistent with a possibly rewritten t1
         cc = dict(c); cc["t1"] = t1; t2 = second_unit(cc)
     if not (units.total_exponent_ok(t1) and units.total_exponent_ok(t2)):
